@@ -38,7 +38,9 @@ if [ -z "${SKIP_TESTS:-}" ]; then
 fi
 demo patched
 for c in "$@"; do
+  mkdir -p $SEED/run
   out=$(VERIF_OUTDIR=$SEED/run ./check $c ${TIER:-quick} 2>&1); rc=$?
+  echo "$out" | grep -v "^KNOWN-FINDING" | tail -60 | cut -c1-600 > $SEED/run/check_$c.out
   echo "check $c ${TIER:-quick} on patched tree: exit $rc" | tee -a $LOG
   echo "$out" | grep -E "^\[check\] [a-z].*:|VIOLATION" | cut -c1-400 | head -6 | tee -a $LOG
 done
